@@ -134,6 +134,11 @@ func (ps *cachePartStore) GetPart(ctx context.Context, tx database.Tx, partId pa
 	if ps.hasOversizedHint(cacheKey) {
 		return ps.innerPartStore.GetPart(ctx, tx, partId)
 	}
+	// Inside a write transaction the inner store may hand out content that is not
+	// committed yet (and may be rolled back): never populate the cache from it.
+	if ro, ok := tx.(interface{ ReadOnly() bool }); tx != nil && (!ok || !ro.ReadOnly()) {
+		return ps.innerPartStore.GetPart(ctx, tx, partId)
+	}
 
 	rc, err = ps.innerPartStore.GetPart(ctx, tx, partId)
 	if err != nil {
